@@ -90,6 +90,11 @@ def obs_material(m):
     return {"kind": "Material", "name": str(m.name), "properties": _sha(_props(m.properties))}
 
 
+_HIDDEN_ATTRS = ("l_interpolator", "p_interpolator")
+_STD_ATTRS = ("_material", "_adsorbate", "_temperature", "properties", "data_raw", "model", "pressure_key", "loading_key", "other_keys", "branch",
+              "pressure_mode", "pressure_unit", "loading_basis", "loading_unit", "material_basis", "material_unit", "temperature_unit")
+
+
 def obs_iso(iso):
     """the observable state of an isotherm, as the property lists it (identifier, labels, data, properties)"""
     o = {"kind": type(iso).__name__}
@@ -99,6 +104,7 @@ def obs_iso(iso):
     o["meta"] = _sha(_val(iso.properties))
     o["adsorbate"] = _sha(ads_text(iso.adsorbate))
     o["material"] = _sha(mat_text(iso.material))
+    o["attributes"] = _sha(_val(sorted((k, _val(v) if k not in _STD_ATTRS else "") for k, v in vars(iso).items() if k not in _HIDDEN_ATTRS)))
     if hasattr(iso, "data_raw"):
         o["data"] = df_digest(iso.data_raw) + f"/{iso.pressure_key}/{iso.loading_key}/{list(iso.other_keys)!r}"
     elif hasattr(iso, "model"):
@@ -492,6 +498,29 @@ class Fixtures:
             con.close()
         self._n = 0
 
+    def bad_kernel(self):
+        """a user kernel file with one non-numeric cell (a spreadsheet '#VALUE!') in a column other than the first"""
+        path = os.path.join(self.scratch, "kernel_bad.csv")
+        if not os.path.exists(path):
+            with open(self.kernels()[0], encoding="utf8") as f:
+                lines = f.read().splitlines()
+            row = lines[40].split(",")
+            row[4] = "#VALUE!"
+            lines[40] = ",".join(row)
+            with open(path, "w", encoding="utf8") as f:
+                f.write("\n".join(lines) + "\n")
+        return path
+
+    def registered(self, key):
+        """the sample isotherm with its material registered in the session list (shared Material object, with a property)"""
+        import pygaps
+        iso = self.load(key)
+        name = str(iso.material)
+        if not any(m.name == name for m in pygaps.MATERIAL_LIST):
+            pygaps.Material(name, store=True, density=1.0 + 0.01 * len(name))
+            iso = self.load(key)
+        return iso
+
     def db(self):
         """a fresh copy of the template database"""
         if self._db is None:
@@ -848,6 +877,161 @@ def cases(fx, tier, seed):
     add("plot_iso", "rep degC + rep relative%,fraction + model(rep degC)",
         lambda: {"isotherm0": fx.rep("degC"), "isotherm1": fx.rep("relative%,fraction"), "isotherm2": fx.model("rep:degC", "Langmuir")},
         lambda o: plot_iso([o["isotherm0"], o["isotherm1"], o["isotherm2"]], pressure_mode="relative", loading_basis="mass", loading_unit="mg"), cache=False)
+
+    # ---- verbose=True everywhere (Agg backend), on isotherms whose material and adsorbate are shared registered objects
+    def reg(key, n=None):
+        if key == "syn":
+            return one("syn")
+        if n:
+            def b():
+                import pygaps as pg
+                fx.registered(key)
+                return {"isotherm": fx.small(key, n)}
+            return b
+        return lambda: {"isotherm": fx.registered(key)}
+
+    def reg2(k0, k1, model=None):
+        def b():
+            a, c = fx.registered(k0), fx.registered(k1)
+            if model:
+                a, c = pygaps.ModelIsotherm.from_pointisotherm(a, model=model), pygaps.ModelIsotherm.from_pointisotherm(c, model=model)
+            return {"isotherm0": a, "isotherm1": c}
+        return b
+    V = dict(cache=False)
+    add("area_BET", "syn:verbose", reg("syn"), lambda o: pgc.area_BET(o["isotherm"], verbose=True), **V)
+    add("area_langmuir", "mcm(registered):verbose", reg("mcm"), lambda o: pgc.area_langmuir(o["isotherm"], verbose=True), **V)
+    add("t_plot", "mcm(registered):verbose", reg("mcm"), lambda o: pgc.t_plot(o["isotherm"], verbose=True), **V)
+    add("alpha_s", "mcm(registered) vs itself:verbose", lambda: {"isotherm": fx.registered("mcm"), "reference": fx.registered("mcm")},
+        lambda o: pgc.alpha_s(o["isotherm"], o["reference"], t_limits=(0.7, 1.0), verbose=True), **V)
+    add("dr_plot", "tak(registered):verbose", reg("tak", 30), lambda o: pgc.dr_plot(o["isotherm"], verbose=True), **V)
+    add("da_plot", "tak(registered):verbose", reg("tak", 30), lambda o: pgc.da_plot(o["isotherm"], exp=2.3, verbose=True), **V)
+    add("psd_mesoporous", "mcm(registered):verbose", reg("mcm"), lambda o: pgc.psd_mesoporous(o["isotherm"], verbose=True), **V)
+    add("psd_microporous", "tak(registered):verbose", reg("tak", 18), lambda o: pgc.psd_microporous(o["isotherm"], verbose=True), **V)
+    add("psd_dft", "tak(registered):user kernel A,verbose", reg("tak", 14), lambda o: pgc.psd_dft(o["isotherm"], kernel=fx.kernels()[0], verbose=True), **V)
+    add("initial_henry_slope", "syn:verbose", reg("syn"), lambda o: pgc.initial_henry_slope(o["isotherm"], max_adjrms=0.1, verbose=True), **V)
+    add("initial_henry_slope", "mcm(registered):verbose", reg("mcm", 25), lambda o: pgc.initial_henry_slope(o["isotherm"], verbose=True), **V)
+    add("initial_henry_virial", "mcm(registered):verbose", reg("mcm"), lambda o: pgc.initial_henry_virial(o["isotherm"], verbose=True), **V)
+    add("isosteric_enthalpy", "BAX(registered):verbose", lambda: {f"isotherm{i}": fx.registered(k) for i, k in enumerate(("b298", "b323", "b348"))},
+        lambda o: pgc.isosteric_enthalpy([o["isotherm0"], o["isotherm1"], o["isotherm2"]], verbose=True), **V)
+    add("initial_enthalpy_point", "syn:verbose", reg("syn"), lambda o: pgc.initial_enthalpy_point(o["isotherm"], "enthalpy", verbose=True), **V)
+    add("initial_enthalpy_comp", "tco2(registered):verbose", reg("tco2"), lambda o: pgc.initial_enthalpy_comp(o["isotherm"], "enthalpy", verbose=True), **V)
+    add("enthalpy_sorption_whittaker", "ch4(registered):Toth,verbose", reg("ch4"), lambda o: pgc.enthalpy_sorption_whittaker(o["isotherm"], model="Toth", verbose=True), **V)
+    add("model_iso", "syn:Toth,verbose", reg("syn"), lambda o: pgm.model_iso(o["isotherm"], model="Toth", verbose=True), **V)
+    add("model_iso", "c2h6(registered):[Henry,Langmuir],verbose", reg("c2h6"), lambda o: pgm.model_iso(o["isotherm"], model=["Henry", "Langmuir"], verbose=True), **V)
+    add("reverse_iast", "points(registered):verbose", reg2("ch4", "c2h6"), lambda o: pgi.reverse_iast(pair(o), [0.3, 0.7], 1.0, verbose=True), **V)
+    add("iast_point", "points(registered):verbose", reg2("ch4", "c2h6"), lambda o: pgi.iast_point(pair(o), [0.4, 0.6], verbose=True), **V)
+    add("iast_binary_svp", "Langmuir models(registered):verbose", reg2("ch4", "c2h6", "Langmuir"), lambda o: pgi.iast_binary_svp(pair(o), [0.5, 0.5], [0.5, 1.0, 2.0], verbose=True), **V)
+    add("iast_binary_vle", "Langmuir models(registered):verbose", reg2("ch4", "c2h6", "Langmuir"), lambda o: pgi.iast_binary_vle(pair(o), 1.0, npoints=4, verbose=True), **V)
+    add("isotherm_to_db", "syn:verbose", one("syn"), lambda o: (lambda p: (pgp.isotherm_to_db(o["isotherm"], db_path=p, verbose=True), dump_db(p))[1])(fx.db()), **V)
+
+    # ---- the warning / extrapolation paths of IAST (warningoff=False is the default): fictitious pressures beyond the fitted range
+    for mname in ("Langmuir",) + (("Toth", "Quadratic") if thorough else ()):
+        b = reg2("ch4", "c2h6", mname)
+        add("iast_point", f"{mname} models:beyond the fitted range (warning)", b, lambda o: pgi.iast_point(pair(o), [60.0, 40.0]), **V)
+        add("iast_point_fraction", f"{mname} models:beyond the fitted range (warning)", b, lambda o: pgi.iast_point_fraction(pair(o), [0.5, 0.5], 100.0), **V)
+        add("reverse_iast", f"{mname} models:beyond the fitted range (warning)", b, lambda o: pgi.reverse_iast(pair(o), [0.5, 0.5], 100.0), **V)
+        add("iast_binary_svp", f"{mname} models:beyond the fitted range (warning)", b, lambda o: pgi.iast_binary_svp(pair(o), [0.5, 0.5], [10.0, 100.0]), **V)
+        add("iast_binary_vle", f"{mname} models:beyond the fitted range (warning)", b, lambda o: pgi.iast_binary_vle(pair(o), 100.0, npoints=4), **V)
+        add("iast_point_fraction", f"{mname} models:beyond the range, warningoff", b, lambda o: pgi.iast_point_fraction(pair(o), [0.5, 0.5], 100.0, warningoff=True), **V)
+    add("iast_point_fraction", "points:beyond the measured range", two(), lambda o: pgi.iast_point_fraction(pair(o), [0.5, 0.5], 100.0), **V)
+    add("iast_point_fraction", "points:with a guess", two(), lambda o: pgi.iast_point_fraction(pair(o), [0.5, 0.5], 1.0, adsorbed_mole_fraction_guess=[0.3, 0.7]), **V)
+    add("reverse_iast", "points:with a guess", two(), lambda o: pgi.reverse_iast(pair(o), [0.3, 0.7], 1.0, gas_mole_fraction_guess=[0.8, 0.2]), **V)
+
+    # ---- plot options
+    add("plot_iso", "syn:log axes, ranges, points, legend keys, no colour", one("syn"),
+        lambda o: plot_iso(o["isotherm"], logx=True, logy1=True, x_range=(0.05, 1.0), y1_range=(0.5, None), y2_data="enthalpy", logy2=True, y2_range=(1.0, 20.0),
+                           branch="all", color=False, marker=False, lgd_keys=["material", "temperature", "branch"], lgd_pos="bottom",
+                           y1_line_style={"linewidth": 2}, x_points=[0.1, 0.3]), **V)
+    add("plot_iso", "syn:loading on x, save to file", one("syn"),
+        lambda o: plot_iso(o["isotherm"], x_data="loading", y1_data="enthalpy", branch="des", color="r", marker=3, lgd_pos=None,
+                           save_path=os.path.join(fx.scratch, "plot.png")), **V)
+
+    # ---- error paths: the same bad input twice (same refusal, nothing moved, nothing half-cached), the good input afterwards
+    bad = fx.bad_kernel
+    E = [
+        ("psd_dft", "tak:malformed user kernel ('#VALUE!' cell)", one("tak", 14), lambda o: pgc.psd_dft(o["isotherm"], kernel=bad())),
+        ("psd_dft", "tak:kernel file missing", one("tak", 14), lambda o: pgc.psd_dft(o["isotherm"], kernel=os.path.join(fx.scratch, "nope.csv"))),
+        ("psd_dft", "tak:kernel=None", one("tak", 14), lambda o: pgc.psd_dft(o["isotherm"], kernel=None)),
+        ("psd_dft", "tak:limits leave no points", one("tak", 14), lambda o: pgc.psd_dft(o["isotherm"], kernel=fx.kernels()[0], p_limits=(0.9, 0.95))),
+        ("psd_dft", "tak:no desorption branch", one("tak", 14), lambda o: pgc.psd_dft(o["isotherm"], kernel=fx.kernels()[0], branch="des")),
+        ("t_plot", "mcm:unknown thickness model", one("mcm"), lambda o: pgc.t_plot(o["isotherm"], thickness_model="no such")),
+        ("t_plot", "mcm:thickness callable that raises", one("mcm"), lambda o: pgc.t_plot(o["isotherm"], thickness_model=lambda p: 1 / 0)),
+        ("t_plot", "mcm:empty limits", one("mcm"), lambda o: pgc.t_plot(o["isotherm"], t_limits=(5.0, 6.0))),
+        ("psd_mesoporous", "mcm:unknown psd model", one("mcm"), lambda o: pgc.psd_mesoporous(o["isotherm"], psd_model="no such")),
+        ("psd_mesoporous", "mcm:unknown thickness model", one("mcm"), lambda o: pgc.psd_mesoporous(o["isotherm"], thickness_model="no such")),
+        ("psd_mesoporous", "mcm:unknown kelvin model", one("mcm"), lambda o: pgc.psd_mesoporous(o["isotherm"], kelvin_model="no such")),
+        ("psd_mesoporous", "mcm:bad geometry / branch", one("mcm"), lambda o: pgc.psd_mesoporous(o["isotherm"], pore_geometry="cube", branch="both")),
+        ("psd_mesoporous", "mcm:limits leave no points", one("mcm"), lambda o: pgc.psd_mesoporous(o["isotherm"], p_limits=(0.99, 0.995))),
+        ("psd_microporous", "tak:unknown material model", one("tak", 18), lambda o: pgc.psd_microporous(o["isotherm"], material_model="no such")),
+        ("psd_microporous", "tak:incomplete adsorbate model", one("tak", 18), lambda o: pgc.psd_microporous(o["isotherm"], adsorbate_model={"molecular_diameter": 0.3})),
+        ("psd_microporous", "tak:unknown model / geometry", one("tak", 18), lambda o: pgc.psd_microporous(o["isotherm"], psd_model="XX", pore_geometry="cube")),
+        ("psd_microporous", "ch4:adsorbate without HK properties", one("ch4"), lambda o: pgc.psd_microporous(o["isotherm"])),
+        ("area_BET", "mcm:limits leave two points", one("mcm"), lambda o: pgc.area_BET(o["isotherm"], p_limits=(0.1, 0.11))),
+        ("area_BET", "tak:no desorption branch", one("tak", 18), lambda o: pgc.area_BET(o["isotherm"], branch="des")),
+        ("area_langmuir", "mcm:limits leave no points", one("mcm"), lambda o: pgc.area_langmuir(o["isotherm"], p_limits=(2.0, 3.0))),
+        ("alpha_s", "mcm vs ch4: other adsorbate", lambda: {"isotherm": fx.load("mcm"), "reference": fx.load("ch4")}, lambda o: pgc.alpha_s(o["isotherm"], o["reference"])),
+        ("alpha_s", "mcm:bad reducing pressure / reference area", lambda: {"isotherm": fx.load("mcm"), "reference": fx.load("mcm")},
+         lambda o: [outcome_of(lambda: pgc.alpha_s(o["isotherm"], o["reference"], reducing_pressure=1.3))["text"],
+                    outcome_of(lambda: pgc.alpha_s(o["isotherm"], o["reference"], reference_area="some"))["text"]]),
+        ("dr_plot", "tak:limits leave no points", one("tak", 30), lambda o: pgc.dr_plot(o["isotherm"], p_limits=(0.9, 0.95))),
+        ("da_plot", "tak:bad exponent", one("tak", 30), lambda o: pgc.da_plot(o["isotherm"], exp=-1.0)),
+        ("initial_henry_slope", "syn:impossible limits", one("syn"), lambda o: pgc.initial_henry_slope(o["isotherm"], p_limits=(5.0, 6.0))),
+        ("initial_henry_virial", "syn:Virial fit refused", one("syn"), lambda o: pgc.initial_henry_virial(o["isotherm"])),
+        ("isosteric_enthalpy", "one isotherm only", one("b298"), lambda o: pgc.isosteric_enthalpy([o["isotherm"]])),
+        ("isosteric_enthalpy", "same temperature twice", lambda: {"isotherm0": fx.load("b298"), "isotherm1": fx.load("b298")},
+         lambda o: pgc.isosteric_enthalpy([o["isotherm0"], o["isotherm1"]])),
+        ("initial_enthalpy_comp", "mcm:no such column", one("mcm"), lambda o: pgc.initial_enthalpy_comp(o["isotherm"], "enthalpy")),
+        ("enthalpy_sorption_whittaker", "ch4:Henry refused", one("ch4"), lambda o: pgc.enthalpy_sorption_whittaker(o["isotherm"], model="Henry")),
+        ("enthalpy_sorption_whittaker", "ch4:unknown model", one("ch4"), lambda o: pgc.enthalpy_sorption_whittaker(o["isotherm"], model="no such")),
+        ("model_iso", "ch4:unknown model", one("ch4"), lambda o: pgm.model_iso(o["isotherm"], model="no such")),
+        ("model_iso", "ch4:no model", one("ch4"), lambda o: pgm.model_iso(o["isotherm"])),
+        ("model_iso", "ch4:unknown parameter in guess", one("ch4"), lambda o: pgm.model_iso(o["isotherm"], model="Langmuir", param_guess={"zz": 1.0})),
+        ("model_iso", "ch4:unknown parameter in bounds", one("ch4"), lambda o: pgm.model_iso(o["isotherm"], model="Langmuir", param_bounds={"zz": (0, 1)})),
+        ("model_iso", "ch4:list with an unknown model", one("ch4"), lambda o: pgm.model_iso(o["isotherm"], model=["Henry", "no such"])),
+        ("model_iso", "ch4:no desorption branch", one("ch4"), lambda o: pgm.model_iso(o["isotherm"], model="Langmuir", branch="des")),
+        ("model_iso", "ch4:bad optimisation options", one("ch4"), lambda o: pgm.model_iso(o["isotherm"], model="Langmuir", optimization_params={"method": "no such"})),
+        ("iast_point", "one component", one("ch4"), lambda o: pgi.iast_point([o["isotherm"]], [0.5])),
+        ("iast_point_fraction", "lengths differ", two(), lambda o: pgi.iast_point_fraction(pair(o), [0.1], 1.0)),
+        ("reverse_iast", "fractions do not add up", two(), lambda o: pgi.reverse_iast(pair(o), [0.1, 0.4], 1.0)),
+        ("iast_binary_svp", "three components", lambda: {"isotherm0": fx.load("ch4"), "isotherm1": fx.load("c2h6"), "isotherm2": fx.load("ch4")},
+         lambda o: pgi.iast_binary_svp([o["isotherm0"], o["isotherm1"], o["isotherm2"]], [0.3, 0.3, 0.4], [1.0])),
+        ("iast_binary_vle", "negative pressure", two(), lambda o: pgi.iast_binary_vle(pair(o), -1.0, npoints=3)),
+        ("iast_point", "no desorption branch", two(), lambda o: pgi.iast_point(pair(o), [0.4, 0.6], branch="des")),
+        ("PointIsotherm.pressure", "syn:unknown unit / mode / branch", one("syn"),
+         lambda o: [outcome_of(lambda: o["isotherm"].pressure(pressure_unit="furlong"))["text"], outcome_of(lambda: o["isotherm"].pressure(pressure_mode="odd"))["text"],
+                    outcome_of(lambda: o["isotherm"].pressure(branch="sideways"))["text"]]),
+        ("PointIsotherm.loading", "syn:unknown unit / basis", one("syn"),
+         lambda o: [outcome_of(lambda: o["isotherm"].loading(loading_unit="furlong"))["text"], outcome_of(lambda: o["isotherm"].loading(loading_basis="odd"))["text"],
+                    outcome_of(lambda: o["isotherm"].loading(material_basis="odd", material_unit="g"))["text"]]),
+        ("PointIsotherm.loading_at", "syn:out of range / unknown kind / unknown unit", one("syn"),
+         lambda o: [outcome_of(lambda: o["isotherm"].loading_at(50.0))["text"], outcome_of(lambda: o["isotherm"].loading_at(0.3, interpolation_type="odd"))["text"],
+                    outcome_of(lambda: o["isotherm"].loading_at(0.3, pressure_unit="furlong"))["text"], outcome_of(lambda: o["isotherm"].loading_at(0.3))["text"]]),
+        ("PointIsotherm.pressure_at", "syn:out of range / unknown unit", one("syn"),
+         lambda o: [outcome_of(lambda: o["isotherm"].pressure_at(50.0))["text"], outcome_of(lambda: o["isotherm"].pressure_at(3.0, loading_unit="furlong"))["text"],
+                    outcome_of(lambda: o["isotherm"].pressure_at(3.0))["text"]]),
+        ("PointIsotherm.spreading_pressure_at", "syn:above the range / unknown unit", one("syn"),
+         lambda o: [outcome_of(lambda: o["isotherm"].spreading_pressure_at(50.0))["text"], outcome_of(lambda: o["isotherm"].spreading_pressure_at(0.3, pressure_unit="furlong"))["text"],
+                    outcome_of(lambda: o["isotherm"].spreading_pressure_at(0.3))["text"]]),
+        ("PointIsotherm.other_data", "syn:no such column", one("syn"), lambda o: o["isotherm"].other_data("nope")),
+        ("ModelIsotherm.loading_at", "Langmuir(syn):unknown unit, then good", lambda: {"isotherm": fx.model("syn", "Langmuir")},
+         lambda o: [outcome_of(lambda: o["isotherm"].loading_at(0.3, pressure_unit="furlong"))["text"], o["isotherm"].loading_at(0.3)]),
+        ("isotherm_to_db", "syn:database file missing", one("syn"), lambda o: pgp.isotherm_to_db(o["isotherm"], db_path=os.path.join(fx.scratch, "nodir", "no.db"), verbose=False)),
+        ("isotherm_to_db", "syn:same isotherm twice into one file", one("syn"),
+         lambda o: (lambda p: [outcome_of(lambda: pgp.isotherm_to_db(o["isotherm"], db_path=p, verbose=False))["text"],
+                               outcome_of(lambda: pgp.isotherm_to_db(o["isotherm"], db_path=p, verbose=False))["text"], dump_db(p)])(fx.db())),
+        ("isotherm_to_xl", "syn:directory missing", one("syn"), lambda o: o["isotherm"].to_xl(os.path.join(fx.scratch, "nodir", "x.xls"))),
+        ("isotherm_to_json", "syn:directory missing", one("syn"), lambda o: o["isotherm"].to_json(os.path.join(fx.scratch, "nodir", "x.json"))),
+        ("plot_iso", "syn:unknown data key / unit", one("syn"),
+         lambda o: [outcome_of(lambda: plot_iso(o["isotherm"], y2_data="nope"))["text"], outcome_of(lambda: plot_iso(o["isotherm"], pressure_unit="furlong"))["text"],
+                    outcome_of(lambda: plot_iso(o["isotherm"], branch="sideways"))["text"]]),
+    ]
+    for site, variant, b, call in E:
+        add(site, "error path: " + variant, b, call, cache=False)
+    # ... and the good input after the bad one: the failed load must not have left anything behind
+    add("psd_dft", "tak:user kernel A after a malformed kernel", one("tak", 14), lambda o: pgc.psd_dft(o["isotherm"], kernel=fx.kernels()[0]),
+        cross=lambda o: _quiet(lambda: pk._load_kernel(bad())))
+    add("t_plot", "mcm:SiO2 standard after an unknown model", one("mcm"), lambda o: pgc.t_plot(o["isotherm"], thickness_model=SIO2),
+        cross=lambda o: _quiet(lambda: pgc.t_plot(o["isotherm"], thickness_model="no such")))
 
     # ---- adsorbate / material objects passed directly
     add("Adsorbate.to_dict", "nitrogen", lambda: {"adsorbate": pygaps.Adsorbate.find("nitrogen")}, lambda o: o["adsorbate"].to_dict(), cache=False)
